@@ -27,6 +27,8 @@
    elementwise ops, update/concatenate/stack/fromlist/tolist/sum/... on whole/fractional/mixed arrays,
    each followed by a multiplication by a fraction.  random_bits(secfxp, n, signed) is checked to be
    exactly 0/1 resp. +-1, marked integral, at m=1 and m=3 with PRSS on/off.
+   Secure floats: SecureFloat.__init__ must build the significand with integral=False (table entry
+   tied by gen/FlagOblig.v); construction stream and own-value inputs at m=3 (marks at every party).
 4. Random fixed-point programs over scalars and MIXED-integrality lists through the
    flag-setting operations: after each result, flag true => whole number (value opened), value
    against an exact oracle; flags and values of the modelled operations are compared with the
@@ -1377,6 +1379,90 @@ def random_bits_stream(ctx, Sim):
                                    'allowed_scaled': list(allowed), 'times_(0.5+2^-f)_scaled': prods, 'wrong_positions': bad})
 
 
+def secfloat_stream(ctx, Sim):
+    """Secure floats: the significand is a secure fixed-point number; its mark must be sound at EVERY party
+    (flag => whole), also for inputs of other senders, and products/sums must be right."""
+    import math
+    # construction (m=1): ints and floats incl. 0 and +-2^k
+    vals1 = [0, 1, -1, 2, 4, -8, 3, 5, 1024, 0.0, 1.0, -2.0, 0.5, 0.25, 0.75, 3.0, -5.0, 2.5, 1e-3, 6.0, 2.0 ** 20, -2.0 ** -10]
+    out = {}
+
+    async def prog1(mpc, mods, pid):
+        secflt = mpc.SecFlt()
+        rec = []
+        for v in vals1:
+            a = secflt(v)
+            s = a.share[0]
+            rec.append([repr(v), bool(s.integral), int(await mpc.output(s, raw=True)), type(s).frac_length,
+                        float(await mpc.output(a))])
+        out['m1'] = rec
+        return 1
+    sim = Sim(m=1, t=0, seed=ctx.seed + 31)
+    try:
+        sim.start()
+        r = run_limited(sim, prog1, 200, idle_limit=4000, spins=200)
+    finally:
+        quiet_close(sim)
+    if r is None or r[0] != 1:
+        ctx.broken.append({'kind': 'run', 'what': 'secure float construction program did not complete', 'res': str(r)[:200]})
+    for (v, fl, sig, f, opened) in out.get('m1', []):
+        ctx.case({'secflt': v}, nontrivial=True, kind='secflt ctor')
+        if fl and sig % 2 ** f:
+            ctx.violation('flag-wrong op=secflt-significand stream=ctor', {'value': v, 'flag': fl, 'significand_scaled': sig, 'f': f})
+        elif abs(opened - float(eval(v))) > 1e-6 * abs(float(eval(v))):      # significand rounded to its bit length
+            ctx.violation('flag-wrong op=secflt kind=value', {'value': v, 'opened': opened})
+    # every party inputs its OWN secure float (m=3): marks at every party, then products and sums
+    for vals in ([4.0, 3.0, 5.0], [0.75, -8.0, 0.0], [3, 1, 6.5]):
+        res = {}
+
+        async def prog3(mpc, mods, pid, vals=vals):
+            secflt = mpc.SecFlt()
+            x = mpc.input(secflt(vals[pid]))
+            sigs = [a.share[0] for a in x]
+            flags = [bool(s.integral) for s in sigs]
+            sv = [int(v) for v in await mpc.output(sigs, raw=True)]
+            return [flags, sv, type(sigs[0]).frac_length, None]
+
+        async def prog3b(mpc, mods, pid, vals=vals):      # arithmetic, only run when all marks are sound at all parties
+            secflt = mpc.SecFlt()
+            x = mpc.input(secflt(vals[pid]))
+            z = await mpc.output([x[0] * x[1], x[1] * x[2], x[0] + x[1]])
+            return [float(v) for v in z]
+        sim = Sim(m=3, t=1, seed=ctx.seed + 32)
+        try:
+            sim.start()
+            r = run_limited(sim, prog3, 300, idle_limit=3000)
+            if r is not None and all(isinstance(x, list) for x in r) and \
+                    not any(fl and v % 2 ** x[2] for x in r for fl, v in zip(x[0], x[1])):
+                rb = run_limited(sim, prog3b, 300, idle_limit=3000)
+                if rb is None or any(not isinstance(x, list) for x in rb):
+                    r = None
+                else:
+                    for x, zb in zip(r, rb):
+                        x[3] = zb
+        finally:
+            quiet_close(sim)
+        ctx.case({'secflt_input': [repr(v) for v in vals]}, nontrivial=True, kind='secflt input m=3')
+        if r is None or any(not isinstance(x, list) for x in r):
+            ctx.broken.append({'kind': 'run', 'what': 'secure float input program did not complete', 'vals': [repr(v) for v in vals],
+                               'res': str(r)[:300]})
+            continue
+        wrong = [(p, j) for p, (flags, sv, f, z) in enumerate(r) for j, (fl, v) in enumerate(zip(flags, sv)) if fl and v % 2 ** f]
+        detail = {'own_values': [repr(v) for v in vals], 'flags_per_party': [x[0] for x in r], 'significands_scaled': r[0][1],
+                  'frac_length': r[0][2], 'wrong_(party,input)': wrong, 'results': r[0][3]}
+        if wrong:
+            ctx.violation('flag-wrong op=secflt-significand stream=input', detail)
+            continue
+        fv = [float(v) for v in vals]
+        exp = [fv[0] * fv[1], fv[1] * fv[2], fv[0] + fv[1]]
+        for p, x in enumerate(r):
+            if any(abs(g - e) > 1e-5 * max(1.0, abs(e)) for g, e in zip(x[3], exp)):
+                detail['expected'] = exp
+                detail['party'] = p
+                ctx.violation('flag-wrong op=secflt kind=value', detail)
+                break
+
+
 def field_modulus(Sim, seed):
     out = {}
 
@@ -1489,6 +1575,7 @@ def run(ctx):
     layout_stream(ctx, Sim, records)
     constructor_stream(ctx, Sim)
     random_bits_stream(ctx, Sim)
+    secfloat_stream(ctx, Sim)
     np_flag_stream(ctx)
     exprs, meta = [], []
     nbad = 0
